@@ -177,9 +177,10 @@ def Dur.print (d : Dur) : List Char :=
       ++ (if hours > 0 then natDigits hours ++ ['h'] else [])
       ++ (if minutes > 0 then natDigits minutes ++ ['m'] else [])
 
-/-- `Duration.ToStringWithSign()` -/
+/-- `Duration.ToStringWithSign()` (for a parsed `+1h` this yields `++1h`, as in the code; klog only
+calls it on computed durations, which never carry `ForcePlus`) -/
 def Dur.printSigned (d : Dur) : List Char :=
-  if d.mins > 0 then '+' :: ({ d with forcePlus := false }).print else d.print
+  if d.mins > 0 then '+' :: d.print else d.print
 
 /-! ## Entry values -/
 
